@@ -501,7 +501,8 @@ def flag_threading(ctx, res):
 def remove_path(ctx, res):
     repo = get_pyrepo(ctx)
     mod = repo.module(HT)
-    fn = repo.func(HT, "HasTraits.on_trait_change")
+    from ..pyfacts import normalize_guards
+    fn = normalize_guards(repo.func(HT, "HasTraits.on_trait_change"))
     ps = [a.arg for a in fn.args.args]
     rm_if = [n for n in ast.walk(fn) if isinstance(n, ast.If)
              and norm(n.test) == "remove" and n.orelse]
